@@ -178,6 +178,39 @@ def domain(desc, scope):
     raise ValueError('no domain for %r' % (desc,))
 
 
+class _Counting:
+    """A one-shot iterator that knows its whole sequence and how many
+    elements have been pulled (native twin of the symbolic SIter)."""
+
+    def __init__(self, items):
+        self.seq = tuple(items)
+        self.pos = 0
+
+    def __iter__(self):
+        return self
+
+    def __next__(self):
+        if self.pos >= len(self.seq):
+            raise StopIteration
+        self.pos += 1
+        return self.seq[self.pos - 1]
+
+
+class _Snapshot:
+    def __init__(self, items):
+        self.seq, self.pos = tuple(items), 0
+
+
+class _CountedFn:
+    def __init__(self, fn):
+        self.fn, self.count = fn, 0
+        self.name = getattr(fn, '__name__', 'fn')
+
+    def __call__(self, *a, **k):
+        self.count += 1
+        return self.fn(*a, **k)
+
+
 class _Expr:
     def __init__(self, code):
         self.code = code
@@ -197,7 +230,7 @@ class _Iter:
 
 
 def bounded(target, params, requires, ensures, raises, is_gen, scope, repo,
-            max_cases=20000):
+            max_cases=20000, track_pulls=None, seq_result=False):
     fn = resolve(target, repo)
     names = list(params)
     doms = [domain(params[n], scope) for n in names]
@@ -210,22 +243,31 @@ def bounded(target, params, requires, ensures, raises, is_gen, scope, repo,
         spec_args = {}
         for n, v in zip(names, combo):
             if isinstance(v, _Iter):
-                args[n] = iter(v.items)
-                spec_args[n] = v.items
+                args[n] = spec_args[n] = _Counting(v.items)
+                spec_args['old_' + n] = _Snapshot(v.items)
+                if n == track_pulls:
+                    spec_args['SRC'] = args[n]
+            elif callable(v) and not isinstance(v, type):
+                args[n] = spec_args[n] = _CountedFn(v)
             elif isinstance(v, _Expr):
                 args[n] = spec_args[n] = v.make()
             else:
                 args[n] = v
                 spec_args[n] = v
+        if seq_result:
+            spec_args['__seq_result__'] = True
         verdict, info = run_case_split(fn, args, spec_args, requires, ensures,
                                        raises, is_gen)
+        spec_args.pop('__seq_result__', None)
         if verdict == 'skip':
             skipped += 1
         elif verdict == 'ok':
             ok += 1
         else:
             return dict(status='failed', cases=total, detail=info,
-                        input={n: repr(spec_args[n]) for n in names})
+                        input={n: (repr(spec_args[n].seq) if isinstance(
+                            spec_args[n], _Counting) else repr(spec_args[n]))
+                            for n in names})
     return dict(status='ok', cases=total, checked=ok, skipped=skipped)
 
 
@@ -233,6 +275,11 @@ def run_case_split(fn, call_args, spec_args, requires, ensures, raises,
                    is_gen):
     env = dict(_helpers())
     env.update(spec_args)
+    for k_, v_ in list(spec_args.items()):
+        env.setdefault('old_' + k_, v_)
+    env['ncalls'] = lambda f: getattr(f, 'count', 0) if f is not None else 0
+    env.pop('__seq_result__', None)
+    src = spec_args.get('SRC')
     for r in requires:
         try:
             if not eval(_compile(r), env):
@@ -241,10 +288,17 @@ def run_case_split(fn, call_args, spec_args, requires, ensures, raises,
             return 'skip', None
     try:
         res = fn(**call_args)
-        if is_gen or isinstance(res, types.GeneratorType) or hasattr(
-                res, '__next__'):
-            res = tuple(itertools.islice(res, 10000))
+        if is_gen or isinstance(res, types.GeneratorType) or (hasattr(
+                res, '__next__') and not isinstance(res, _Counting)):
+            items, pulls = [], []
+            for x in itertools.islice(res, 10000):
+                items.append(x)
+                pulls.append(src.pos if src is not None else 0)
+            res = tuple(items)
             env['out'] = res
+            env['pulls'] = tuple(pulls)
+        if isinstance(res, list) and spec_args.get('__seq_result__'):
+            res = tuple(res)    # sequences are compared by content
         env['result'] = res
     except Exception as e:      # noqa
         allowed = None
@@ -286,19 +340,27 @@ def main():
                 r = bounded(j['target'], j['params'], j['requires'],
                             j['ensures'], j.get('raises'), j.get('is_gen'),
                             j.get('scope', 2), repo,
-                            j.get('max_cases', 20000))
+                            j.get('max_cases', 20000),
+                            track_pulls=j.get('track_pulls'),
+                            seq_result=j.get('seq_result', False))
             elif j['mode'] == 'replay':
                 fn = resolve(j['target'], repo)
                 call, spec = {}, {}
                 for n, v in j['args'].items():
                     d = j['params'].get(n, {})
-                    if d.get('kind') == 'seq':
+                    if d.get('kind') == 'seq' and d.get('as') == 'iter':
+                        call[n] = spec[n] = _Counting(tuple(v))
+                        spec['old_' + n] = _Snapshot(tuple(v))
+                        if n == j.get('track_pulls'):
+                            spec['SRC'] = call[n]
+                    elif d.get('kind') == 'seq':
                         v = tuple(v)
                         spec[n] = v
-                        call[n] = iter(v) if d.get('as') == 'iter' else (
-                            list(v) if d.get('as') == 'list' else v)
+                        call[n] = list(v) if d.get('as') == 'list' else v
                     else:
                         call[n] = spec[n] = v
+                if j.get('seq_result'):
+                    spec['__seq_result__'] = True
                 verdict, info = run_case_split(
                     fn, call, spec, j['requires'], j['ensures'],
                     j.get('raises'), j.get('is_gen'))
